@@ -19,6 +19,14 @@ def eval_bool(e, env, atoms=None):
     txt = ast.unparse(e)
     if txt in atoms:
         return atoms[txt]
+    if atoms and isinstance(e, (ast.Compare, ast.UnaryOp)):
+        # an atom may be given in its negated spelling (`k not in d` for `k in d`)
+        from .canon import negate
+        import copy
+
+        neg = ast.unparse(negate(copy.deepcopy(e)))
+        if neg in atoms:
+            return not atoms[neg]
     if isinstance(e, ast.BoolOp):
         vals = [eval_bool(v, env, atoms) for v in e.values]
         if isinstance(e.op, ast.And):
